@@ -15,7 +15,7 @@ T1_QUICK = ["", "a", " ", "\n", " \n", "\n ", " \n ", "\n\n", "a\n ", " a", "\t\
 T2_QUICK = ["\n ", " "]
 T2_THOROUGH = ["", "a", " ", "\n ", " \n ", "\n"]
 #: 3-tag exhaustive (thorough): outer runs / inner runs
-T3_OUTER = ["", " \n "]
+T3_OUTER = ["\n "]
 T3_INNER = ["", " ", "\n "]
 
 _TEXT_UNITS = [" ", " ", "\t", "\n", "\n", "\r\n", "\r", "a", "b", "xy", "  ", "\n\n"]
